@@ -131,9 +131,9 @@ var natAddr6 = netip.MustParseAddr("fd00:64::7")
 // catalogueFor lists the reply forms applicable to a driver variant.
 func catalogueFor(variant string, v6 bool) []replyForm {
 	var fs []replyForm
-	rr := []byte{7, 7, 4, 0, 0, 0, 0, 0}                          // record route, padded with EOL
-	ts := []byte{68, 12, 5, 0, 0, 0, 0, 0, 0, 0, 0, 0}            // timestamp option
-	nopra := []byte{1, 1, 1, 1, 148, 4, 0, 0}                     // NOPs + router alert
+	rr := []byte{7, 7, 4, 0, 0, 0, 0, 0}               // record route, padded with EOL
+	ts := []byte{68, 12, 5, 0, 0, 0, 0, 0, 0, 0, 0, 0} // timestamp option
+	nopra := []byte{1, 1, 1, 1, 148, 4, 0, 0}          // NOPs + router alert
 	addTE := func(kind string, code byte) {
 		for _, q := range []quoteStyle{quote28, quoteFull, quote4884} {
 			if v6 && q == quote4884 {
